@@ -104,33 +104,3 @@ func (c *ctx) walk(u *universe, o walkOpts) {
 		}
 	}
 }
-
-// ---------- C06: gas ----------
-func monGas(c *ctx, w *hWorld, pre *worldSnap, sr *stepResult, hist []string) {
-	if sr.Res.Status != 0 || sr.Res.Out == nil {
-		return
-	}
-	out := sr.Res.Out
-	sum := new(big.Int).SetUint64(out.GasRemaining)
-	for _, oa := range out.OutputAccounts {
-		for _, t := range oa.OutputTransfers {
-			sum.Add(sum, new(big.Int).SetUint64(t.GasLimit))
-		}
-	}
-	if sum.Cmp(new(big.Int).SetUint64(sr.Call.Gas)) > 0 {
-		c.fail("monitor", "gas-created/"+sr.Call.Fn, fmt.Sprintf("%s: GasRemaining + sum(GasLimit) = %s > GasProvided = %d", sr.Call.Fn, sum, sr.Call.Gas),
-			map[string]interface{}{"call": describeCall(sr.Call), "pre": digestAccounts(sr.Res.Pre), "history": histReplay(hist)})
-	}
-}
-
-func init() {
-	runners["C06"] = func(c *ctx) {
-		u := newUniverse()
-		c.rep.Rule = "random walks over 1-3 shard worlds (standard holdings) with gas drawn around each function's charge {0,cost-1,cost,cost+1,2^63,2^64-1,...}; every executed call: monitor GasRemaining+sum(GasLimit)<=GasProvided on the implementation, and the call is re-evaluated in the Coq model (gas triple + status compared). distinct = distinct (world state, operation)."
-		n, ops := 6, 250
-		if c.thorough() || c.widen {
-			n, ops = 40, 500
-		}
-		c.walk(u, walkOpts{Worlds: n, Ops: ops, Proj: "proj_all", Monitors: []monitor{monGas}})
-	}
-}
